@@ -453,7 +453,26 @@ def run_prefs(case) -> CaseResult:
         'gcm' in want['enc'] or 'chacha' in want['enc'])
     expect_fail = want['kex'] is None or want['enc'] is None or \
         want['comp'] is None or (want['mac'] is None and not aead)
+
+    # RFC 4253 7.1: the two directions are negotiated separately.  asyncssh
+    # always offers the same list for both, an independent peer need not:
+    # *_sc lists (refpeer side only) are its server-to-client offers
+    def sc(d, k):
+        return d.get(k + '_sc') or d[k]
+
+    want_sc = {k: choose(sc(c, k), sc(s, k)) for k in ('enc', 'mac', 'comp')}
+    aead_sc = want_sc['enc'] is not None and (
+        'gcm' in want_sc['enc'] or 'chacha' in want_sc['enc'])
+    expect_fail = expect_fail or want_sc['enc'] is None or \
+        want_sc['comp'] is None or (want_sc['mac'] is None and not aead_sc)
     labels = ['peer:' + peer, 'no-common' if expect_fail else 'common']
+
+    if any(k + '_sc' in d for d in (c, s) for k in ('enc', 'mac', 'comp')):
+        labels.append('directions-offered-differently')
+
+        if not expect_fail and (want_sc['enc'], want_sc['mac']) != \
+                (want['enc'], want['mac']):
+            labels.append('directions-negotiated-differently')
 
     def opts(d):
         return {'kex_algs': d['kex'], 'encryption_algs': d['enc'],
@@ -523,9 +542,11 @@ def run_prefs(case) -> CaseResult:
     ref = RefPeer('server' if ref_is_server else 'client',
                   kex=[x.encode() for x in mine['kex']],
                   enc_cs=[x.encode() for x in mine['enc']],
+                  enc_sc=[x.encode() for x in sc(mine, 'enc')],
                   mac_cs=[x.encode() for x in mine['mac']],
+                  mac_sc=[x.encode() for x in sc(mine, 'mac')],
                   comp_cs=[x.encode() for x in mine['comp']],
-                  comp_sc=[x.encode() for x in mine['comp']],
+                  comp_sc=[x.encode() for x in sc(mine, 'comp')],
                   host_key=hk if ref_is_server else None)
     conn = RefConn(ref)
     link = RefLink(ref, opts(theirs))
@@ -555,9 +576,36 @@ def run_prefs(case) -> CaseResult:
         if aead:
             got['mac'] = want['mac']
 
-        if got != want:
-            raise Violation('harness', 'refpeer negotiated %r, reference says '
-                            '%r' % (got, want), 'refpeer-negotiation')
+        got_sc = {'enc': neg['enc_sc'].decode(),
+                  'mac': neg['mac_sc'].decode(),
+                  'comp': neg['comp_sc'].decode()}
+
+        if aead_sc:
+            got_sc['mac'] = want_sc['mac']
+
+        if got != want or got_sc != want_sc:
+            raise Violation('harness', 'refpeer negotiated %r / %r, reference '
+                            'says %r / %r' % (got, got_sc, want, want_sc),
+                            'refpeer-negotiation')
+
+        # what asyncssh says it negotiated, per direction
+        send, recv = ('sc', 'cs') if not ref_is_server else ('cs', 'sc')
+        per = {'cs': (want, aead), 'sc': (want_sc, aead_sc)}
+
+        for way, pre in ((send, 'send'), (recv, 'recv')):
+            w, is_aead = per[way]
+            gotv = (link.conn.get_extra_info(pre + '_cipher'),
+                    link.conn.get_extra_info(pre + '_mac'),
+                    link.conn.get_extra_info(pre + '_compression'))
+            wantv = (w['enc'], w['enc'] if is_aead else w['mac'], w['comp'])
+
+            if gotv[0] != wantv[0] or gotv[2] != wantv[2] or \
+                    (not is_aead and gotv[1] != wantv[1]):
+                raise Violation(
+                    'negotiation', 'asyncssh reports %s algorithms %r; the '
+                    'first client choices the server supports for the %s '
+                    'direction are %r' % (pre, gotv, way, wantv),
+                    'wrong-choice:' + way)
 
         # prove both ends hold the same keys: one encrypted round trip
         if ref_is_server:
@@ -618,7 +666,17 @@ def prefs_strategy(tier: str):
                     'mac': draw(sub(mpool, 1, len(mpool))),
                     'comp': draw(sub(all_comp, 1, 3))}
 
-        return {'peer': peer, 'client': side(), 'server': side()}
+        case = {'peer': peer, 'client': side(), 'server': side()}
+
+        if peer != 'asyncssh' and draw(st.booleans()):
+            # the independent peer offers other lists for server-to-client
+            mine = case['server' if peer == 'ref-server' else 'client']
+            mine['enc_sc'] = draw(sub(epool, 1, len(epool)))
+            mine['mac_sc'] = draw(sub(mpool, 1, len(mpool)))
+            if draw(st.booleans()):
+                mine['comp_sc'] = draw(sub(all_comp, 1, 3))
+
+        return case
 
     return build()
 
@@ -785,6 +843,8 @@ FAMILIES = [
     Family('prefs', run_prefs, strategy=prefs_strategy,
            budget={'quick': 1500, 'thorough': 15000},
            required={'all': ['peer:asyncssh', 'peer:ref-server',
-                             'peer:ref-client', 'no-common', 'common']},
+                             'peer:ref-client', 'no-common', 'common',
+                             'directions-offered-differently',
+                             'directions-negotiated-differently']},
            case_timeout=120),
 ]
